@@ -281,9 +281,9 @@ def const(node, env=None):
     if isinstance(node, ast.Name):
         if node.id in env:
             return env[node.id]
-        if node.id in ('int', 'str', 'bytes', 'bytearray', 'bool', 'tuple', 'list', 'dict'):
+        if node.id in ('int', 'str', 'bytes', 'bytearray', 'bool', 'tuple', 'list', 'dict', 'slice'):
             return {'int': int, 'str': str, 'bytes': bytes, 'bytearray': bytearray, 'bool': bool, 'tuple': tuple, 'list': list,
-                    'dict': dict}[node.id]
+                    'dict': dict, 'slice': slice}[node.id]
         raise NotConst(node.id)
     if isinstance(node, ast.Attribute):
         t = norm(node)
@@ -386,6 +386,8 @@ def const(node, env=None):
             recv = None
         if isinstance(recv, FoldObject):
             return getattr(recv, node.func.attr)(*_args(node.args, env))       # an object the caller of the fold models
+        if isinstance(recv, slice) and node.func.attr == 'indices':
+            return recv.indices(*_args(node.args, env))
     if isinstance(node, ast.Call) and isinstance(node.func, ast.Name) and not node.keywords:
         fn = node.func.id
         args = _args(node.args, env)
@@ -560,6 +562,14 @@ def fold_block(stmts, env):
                     const(t.slice.upper, env) if t.slice.upper is not None else None,
                     const(t.slice.step, env) if t.slice.step is not None else None)]
             continue
+        if isinstance(st, ast.Delete) and all(isinstance(t, ast.Subscript) and isinstance(t.value, ast.Attribute) and
+                                              isinstance(env.get(norm(t.value)), (bytearray, list)) for t in st.targets):
+            for t in st.targets:        # del of an element / slice of a container the fold owns under an attribute text
+                del env[norm(t.value)][const(t.slice, env) if not isinstance(t.slice, ast.Slice) else slice(
+                    const(t.slice.lower, env) if t.slice.lower is not None else None,
+                    const(t.slice.upper, env) if t.slice.upper is not None else None,
+                    const(t.slice.step, env) if t.slice.step is not None else None)]
+            continue
         if isinstance(st, ast.While):
             cycles = 0
             broke = False
@@ -599,6 +609,11 @@ def fold_block(stmts, env):
             elif isinstance(t, ast.Subscript) and not isinstance(t.slice, ast.Slice) and isinstance(t.value, ast.Attribute) and \
                     isinstance(env.get(norm(t.value)), (bytearray, list, dict)):
                 env[norm(t.value)][const(t.slice, env)] = v
+            elif isinstance(t, ast.Subscript) and isinstance(t.slice, ast.Slice) and isinstance(t.value, ast.Attribute) and \
+                    isinstance(env.get(norm(t.value)), (bytearray, list)):
+                env[norm(t.value)][slice(const(t.slice.lower, env) if t.slice.lower is not None else None,
+                                         const(t.slice.upper, env) if t.slice.upper is not None else None,
+                                         const(t.slice.step, env) if t.slice.step is not None else None)] = v
             else:
                 raise NotConst(norm(t))
         elif isinstance(st, ast.AugAssign) and isinstance(st.target, ast.Name) and type(st.op) in _BIN:
